@@ -47,13 +47,15 @@ def inputs_for(g, alphabet, maxlen, rng, extra_long=0):
         yield "".join(rng.choice(alphabet) for _ in range(L))
 
 
-def relayout(w, rng, fillers=LAYOUT_FILLERS):
-    """Insert layout before the first character, between characters, after the last."""
+def relayout(w, rng, fillers=LAYOUT_FILLERS, density=1.0):
+    """Insert layout before the first character, between characters, after the last.
+    With density < 1 most gaps stay empty so that multi-character tokens survive
+    (needed for vocabularies whose tokens have different lengths)."""
     out = []
     for ch in w:
-        out.append(rng.choice(fillers))
+        out.append(rng.choice(fillers) if (density >= 1.0 or rng.random() < density) else "")
         out.append(ch)
-    out.append(rng.choice(fillers))
+    out.append(rng.choice(fillers) if (density >= 1.0 or rng.random() < density) else "")
     return "".join(out)
 
 
